@@ -227,8 +227,8 @@ func genConc(engines []string, free bool) *rapid.Generator[ConcCase] {
 }
 
 type concStats struct {
-	heldInWindow bool
-	blocked      int
+	heldInWindow  bool
+	blocked       int
 	overlapWrites bool
 }
 
